@@ -86,3 +86,86 @@ pub fn run_command_line_scripted(
     set_run_proc_script(None);
     (trace, sh.previous_status, crs.len())
 }
+
+// ---------------------------------------------------------------- expansion passes and planning
+
+use crate::types::{Command, CommandLine};
+
+thread_local! {
+    static PIPE_SCRIPT: RefCell<Option<HashMap<String, String>>> = RefCell::new(None);
+    static PIPE_LOG: RefCell<Vec<String>> = RefCell::new(Vec::new());
+}
+
+/// Install (or clear) the scripted `run_pipeline`: planned command text -> stdout.
+/// Key: argv texts joined by blanks, stages joined by " | ".
+pub fn set_pipeline_script(script: Option<HashMap<String, String>>) {
+    PIPE_SCRIPT.with(|s| *s.borrow_mut() = script);
+    PIPE_LOG.with(|t| t.borrow_mut().clear());
+}
+
+pub fn take_pipeline_log() -> Vec<String> {
+    PIPE_LOG.with(|t| std::mem::take(&mut *t.borrow_mut()))
+}
+
+pub fn plan_key(cl: &CommandLine) -> String {
+    cl.commands
+        .iter()
+        .map(|c| c.tokens.iter().map(|t| t.1.clone()).collect::<Vec<_>>().join(" "))
+        .collect::<Vec<_>>()
+        .join(" | ")
+}
+
+/// Called first thing in `core::run_pipeline`. `None` = no script installed.
+pub fn scripted_run_pipeline(_sh: &mut Shell, cl: &CommandLine, _capture: bool) -> Option<(bool, CommandResult)> {
+    let key = plan_key(cl);
+    let out = PIPE_SCRIPT.with(|s| s.borrow().as_ref().map(|m| m.get(&key).cloned().unwrap_or_default()))?;
+    PIPE_LOG.with(|t| t.borrow_mut().push(key));
+    let mut cr = CommandResult::new();
+    cr.stdout = out;
+    Some((false, cr))
+}
+
+pub fn expand_alias(sh: &Shell, tokens: &mut Tokens) { crate::shell::verif_export::expand_alias(sh, tokens) }
+pub fn expand_home(tokens: &mut Tokens) { crate::shell::verif_export::expand_home(tokens) }
+pub fn expand_env(sh: &Shell, tokens: &mut Tokens) { crate::shell::expand_env(sh, tokens) }
+pub fn expand_brace(tokens: &mut Tokens) { crate::shell::verif_export::expand_brace(tokens) }
+pub fn expand_glob(tokens: &mut Tokens) { crate::shell::expand_glob(tokens) }
+pub fn expand_brace_range(tokens: &mut Tokens) { crate::shell::verif_export::expand_brace_range(tokens) }
+pub fn expand_one_env(sh: &Shell, token: &str) -> String { crate::shell::verif_export::expand_one_env(sh, token) }
+pub fn env_in_token(token: &str) -> bool { crate::shell::verif_export::env_in_token(token) }
+pub fn need_expand_brace(line: &str) -> bool { crate::shell::verif_export::need_expand_brace(line) }
+pub fn should_do_dollar(line: &str) -> bool { crate::shell::verif_export::should_do_dollar_command_extension(line) }
+pub fn do_command_substitution(sh: &mut Shell, tokens: &mut Tokens) { crate::shell::verif_export::do_command_substitution(sh, tokens) }
+pub fn do_expansion(sh: &mut Shell, tokens: &mut Tokens) { crate::shell::do_expansion(sh, tokens) }
+
+pub fn split_tokens_by_pipes(tokens: &[(String, String)]) -> Vec<Tokens> { crate::types::verif_export::split_tokens_by_pipes(tokens) }
+pub fn drain_env_tokens(tokens: &mut Tokens) -> HashMap<String, String> { crate::types::verif_export::drain_env_tokens(tokens) }
+
+/// plain dump of a planned command
+pub struct VCommand {
+    pub tokens: Tokens,
+    pub redirects_to: Vec<(String, String, String)>,
+    pub redirect_from: Option<(String, String)>,
+}
+
+pub struct VPlan {
+    pub commands: Vec<VCommand>,
+    pub envs: Vec<(String, String)>,
+    pub background: bool,
+}
+
+fn dump_command(c: &Command) -> VCommand {
+    VCommand { tokens: c.tokens.clone(), redirects_to: c.redirects_to.clone(), redirect_from: c.redirect_from.clone() }
+}
+
+pub fn from_tokens(tokens: Tokens) -> Result<VCommand, String> {
+    Command::from_tokens(tokens).map(|c| dump_command(&c))
+}
+
+pub fn from_line(line: &str, sh: &mut Shell) -> Result<VPlan, String> {
+    CommandLine::from_line(line, sh).map(|cl| {
+        let mut envs: Vec<(String, String)> = cl.envs.iter().map(|(k, v)| (k.clone(), v.clone())).collect();
+        envs.sort();
+        VPlan { commands: cl.commands.iter().map(dump_command).collect(), envs, background: cl.background }
+    })
+}
